@@ -9,6 +9,7 @@
 (*   render   format_version(v, P) = text         (C02, C05, C14)          *)
 (*   parse    parse_version_info(text, P) = v     (C02)                    *)
 (*   rt       render/recognise/read-back round trip of a state (C02)       *)
+(*   rt2      a bumped text is a legal current version           (C02)       *)
 (*   incr     old --flags,date--> out             (C05, C01, C14)          *)
 (*   calinfo  cal_info(day) = nine fields         (C14, C02)               *)
 (*   weekpat  is_valid_week_pattern(P)            (C14)                    *)
@@ -33,7 +34,9 @@ RenderVerdict(e) == LET t == Render(e.v, e.P) IN IF t = e.text THEN Good ELSE <<
 
 ParseVerdict(e) ==
   LET v == ParseVersion(e.text, e.P, e.today) IN
-  IF SameState(v, e.v) THEN Good ELSE <<"parse", DiffFields(v, e.v)>>
+  IF IsBad(v) /\ ~IsBad(e.v) THEN <<"parse:spec-rejects", v.why>>
+  ELSE IF ~IsBad(v) /\ IsBad(e.v) THEN <<"parse:code-rejects", 0>>
+  ELSE IF SameState(v, e.v) THEN Good ELSE <<"parse:state", DiffFields(v, e.v)>>
 
 \* round trip of one state (C02): text = render(v); accepted in full by the recogniser; every part reads
 \* back equal; re-rendering what was read back reproduces the text.
@@ -51,6 +54,17 @@ RtVerdict(e) ==
            diff == {q \in 1..Len(ps) : Fmt(ps[q], e.back) # Fmt(ps[q], e.v)} IN
   IF diff # {} THEN <<"rt:part-changed", {ps[q] : q \in diff}>>
   ELSE IF e.again # e.text THEN <<"rt:rerender", e.again>>
+  ELSE Good
+
+\* a text the code produced by bumping (library incr or CLI): it must be a legal current version
+\*  e.text : the produced text   e.valid / e.back / e.again : as for rt
+Rt2Verdict(e) ==
+  LET back == ParseVersion(e.text, e.P, e.today) IN
+  IF IsBad(back) # ~e.valid THEN <<"rt2:recogniser-verdict", back>>
+  ELSE IF ~e.valid THEN <<"rt2:not-accepted", back.why>>
+  ELSE IF ~SameState(back, e.back) THEN <<"rt2:readback-state", DiffFields(back, e.back)>>
+  ELSE IF e.again # e.text THEN <<"rt2:rerender", e.again>>
+  ELSE IF Render(back, e.P) # e.text THEN <<"rt2:spec-rerender", Render(back, e.P)>>
   ELSE Good
 
 IncrVerdict(e) ==
@@ -80,6 +94,7 @@ Verdict(e) ==
     [] e.ev = "render"  -> RenderVerdict(e)
     [] e.ev = "parse"   -> ParseVerdict(e)
     [] e.ev = "rt"      -> RtVerdict(e)
+    [] e.ev = "rt2"     -> Rt2Verdict(e)
     [] e.ev = "incr"    -> IncrVerdict(e)
     [] e.ev = "calinfo" -> CalVerdict(e)
     [] e.ev = "weekpat" -> WeekPatVerdict(e)
